@@ -77,7 +77,8 @@ def _rec_state(n=3):
     def gibbs_steps(k, initial_state, overwrite=False):
         st.calls.append(dict(k=k, initial=initial_state, overwrite=overwrite, shape=tuple(initial_state.shape)))
         counter[0] += 1
-        out = initial_state if overwrite else initial_state.clone()
+        # like the real gibbs_steps: a start state of another dtype is converted (a copy), so it is NOT advanced in place
+        out = (initial_state if overwrite else initial_state.clone()).to(st.rbm_am.weights)
         g = torch.Generator().manual_seed(1000 + counter[0])
         out.copy_(torch.bernoulli(torch.full(out.shape, 0.5, dtype=torch.double), generator=g).to(out))
         st.states.append(out.clone())
@@ -94,6 +95,14 @@ def _observables():
     class First(ObservableBase):
         def apply(self, nn_state, samples):
             return samples[:, 0] * 2.0 + samples[:, 1]
+
+    class Occupation(ObservableBase):
+        """occupation of site 0: returns a VIEW of the sample tensor (legal for a user-defined observable)"""
+
+        def apply(self, nn_state, samples):
+            return samples[:, 0]
+
+    First.Occupation = Occupation
 
     class Second(ObservableBase):
         def apply(self, nn_state, samples):
@@ -125,14 +134,17 @@ def _close(a, b):
     return abs(float(a) - b) <= 1e-9 * (1 + abs(b))
 
 
-def schedule(I, system=False, user_chains=0, overwrite=False, composite=False):
+def schedule(I, system=False, user_chains=0, overwrite=False, composite=False, init_dtype=None):
     import torch
     from qucumber.observables import System
 
     num_samples, num_chains, burn_in, steps = I["num_samples"], I["num_chains"], I["burn_in"], I["steps"]
     st = _rec_state()
     o1, o2 = _observables()
-    if composite == "offset":
+    if composite == "alias":
+        # a composite whose first term returns a view of the samples: evaluating it must not write into the chain state
+        o1 = type(o1).Occupation() + 1.5
+    elif composite == "offset":
         # a composite whose mean dwarfs its spread (non-dyadic values): the reported variance must still be the variance
         o1 = o1 * (1.0 / 3.0) + 1.0e6
     elif composite:
@@ -141,6 +153,8 @@ def schedule(I, system=False, user_chains=0, overwrite=False, composite=False):
     init = None
     if user_chains:
         init = torch.tensor([[float((i + j) % 2) for j in range(st.n)] for i in range(user_chains)], dtype=torch.double)
+        if init_dtype is not None:
+            init = init.to(getattr(torch, init_dtype))
         init_before = init.clone()
         kw.update(initial_state=init, overwrite=overwrite)
     if system:
@@ -161,7 +175,7 @@ def schedule(I, system=False, user_chains=0, overwrite=False, composite=False):
             return False, "first draw did not start from the user's chains"
         if not overwrite and not torch.equal(init, init_before):
             return False, "user's initial chains were modified although overwrite=False"
-        if overwrite and not torch.equal(init, st.states[-1]):
+        if overwrite and init_dtype is None and not torch.equal(init, st.states[-1]):
             return False, "user's initial chains do not hold the final chain state although overwrite=True"
     else:
         if st.calls[0]["shape"] != (chains, st.n):
@@ -175,7 +189,7 @@ def schedule(I, system=False, user_chains=0, overwrite=False, composite=False):
     for (ob, res) in ((o1, res1), (o2, res2)):
         if res is None:
             continue
-        vals = np.concatenate([ob.apply(st, s).numpy() for s in st.states])
+        vals = np.concatenate([ob.apply(st, s.clone()).numpy() for s in st.states])  # (clones: the record of the chain states is never handed to library code)
         mean, var, err, n = _onepass(vals)
         if int(res["num_samples"]) != n or n != chains * draws or n < ns:
             return False, "%s: reported count %r, drawn %d, requested %d" % (ob.name, res["num_samples"], n, ns)
@@ -202,6 +216,12 @@ def specs(tier):
     S.append(dict(name="schedule-observable", module="checks.c13", function="schedule", kwargs={}, inputs=sin))
     S.append(dict(name="schedule-system", module="checks.c13", function="schedule", kwargs=dict(system=True), inputs=sin))
     S.append(dict(name="schedule-composite", module="checks.c13", function="schedule", kwargs=dict(composite=True), inputs=dict(sin, burn_in=("int", 1, 1), steps=("int", 0, 1))))
+    S.append(dict(name="schedule-system-aliasing-term", module="checks.c13", function="schedule", kwargs=dict(composite="alias", system=True), inputs=dict(sin, num_chains=("int", 0, 3), burn_in=("int", 0, 1), steps=("int", 1, 1))))
+    S.append(dict(name="schedule-observable-aliasing-term", module="checks.c13", function="schedule", kwargs=dict(composite="alias"), inputs=dict(sin, num_chains=("int", 0, 3), burn_in=("int", 0, 1), steps=("int", 1, 1))))
+    for dt in ("float32", "int64"):
+        for sysm in (True, False):
+            S.append(dict(name="schedule-%s-user-chains-%s" % ("system" if sysm else "observable", dt), module="checks.c13", function="schedule",
+                          kwargs=dict(system=sysm, user_chains=2, overwrite=(dt == "float32"), init_dtype=dt, composite=True), inputs=dict(sin, num_chains=("int", 0, 1), burn_in=("int", 1, 2), steps=("int", 1, 2))))
     S.append(dict(name="schedule-composite-large-offset", module="checks.c13", function="schedule", kwargs=dict(composite="offset"), inputs=dict(sin, burn_in=("int", 1, 1), steps=("int", 1, 1))))
     S.append(dict(name="schedule-system-large-offset", module="checks.c13", function="schedule", kwargs=dict(composite="offset", system=True), inputs=dict(sin, num_chains=("int", 0, 3), burn_in=("int", 0, 0), steps=("int", 1, 1))))
     for uc in (1, 2, 3):
